@@ -37,15 +37,6 @@ pub enum Cmd {
     Resume,
     Stop,
 }
-impl Cmd {
-    fn to_real(self) -> ChunkCommand {
-        match self {
-            Cmd::Suspend => ChunkCommand::Suspend,
-            Cmd::Resume => ChunkCommand::Resume,
-            Cmd::Stop => ChunkCommand::Stop,
-        }
-    }
-}
 
 fn debug() -> bool {
     static D: std::sync::OnceLock<bool> = std::sync::OnceLock::new();
@@ -85,6 +76,10 @@ pub struct PlanState {
     unblock_expected: bool,
     /// identity of the Pause object of the group being run (a new one per script group)
     pause_ptr: usize,
+    /// A Stop became due while a Suspend was pending (flag already 1): its handling would not
+    /// be observable, so it is held back until the VM has paused (or the next group starts).
+    stop_deferred: bool,
+    pub stops_deferred: u64,
 }
 
 pub struct SimCtx {
@@ -304,6 +299,9 @@ impl SimMachine {
             st.parent_blocked_since = None;
             st.unblock_expected = false;
         }
+        if ptr != st.pause_ptr {
+            st.stop_deferred = false;
+        }
         st.pause_ptr = ptr;
         let real_max = self.inner.machine().max_cycles();
         let mut seg = self.cycles();
@@ -314,12 +312,17 @@ impl SimMachine {
                 return self.inner.run();
             }
             // deliver everything that is due at this parked position
-            while !st.stop_delivered && st.next < st.events.len() {
+            while !st.stop_delivered && !st.stop_deferred && st.next < st.events.len() {
                 let (at, cmd) = st.events[st.next];
                 if at > st.executed && !force_due {
                     break;
                 }
                 force_due = false;
+                if cmd == Cmd::Stop && pause.has_interrupted() && st.parent_blocked_since.is_none() {
+                    st.stop_deferred = true;
+                    st.stops_deferred += 1;
+                    break;
+                }
                 st.next += 1;
                 let pos = st.executed;
                 match ctx.deliver(st, cmd, &pause) {
@@ -347,9 +350,8 @@ impl SimMachine {
                     },
                 }
             }
-            force_due = false;
             let cur = self.cycles();
-            let lowered = if !st.stop_delivered && st.next < st.events.len() {
+            let lowered = if !st.stop_delivered && !st.stop_deferred && st.next < st.events.len() {
                 let at = st.events[st.next].0;
                 real_max.min(cur.saturating_add(at.saturating_sub(st.executed)))
             } else {
@@ -361,6 +363,12 @@ impl SimMachine {
             let now = self.cycles();
             st.executed += now.saturating_sub(seg);
             seg = now;
+            if debug() {
+                eprintln!(
+                    "machine.run -> {:?} (limit {lowered} of {real_max}, machine cycles {cur}->{now}, executed {})",
+                    r, st.executed
+                );
+            }
             match r {
                 Err(VMError::CyclesExceeded) if lowered < real_max => {
                     // parked at (or one block before) the simulator's point: the next event is due
@@ -385,6 +393,7 @@ impl SimMachine {
                     }
                     // the child task will wait for a Resume/Stop: deliver the following commands
                     // now; end of schedule while paused means an implicit Resume
+                    st.stop_deferred = false;
                     loop {
                         let cmd = if st.next < st.events.len() {
                             let c = st.events[st.next].1;
